@@ -95,43 +95,45 @@ Fixpoint digits_val (s : bytes) (acc : N) : option N :=
   | c :: r => if is_digit c then digits_val r (acc * 10 + digit_val c) else None
   end.
 
+Definition digits_nonempty (s : bytes) : option N :=
+  match s with [] => None | _ => digits_val s 0 end.
+
 Definition parse_i64 (s : bytes) : option Z :=
   match s with
   | [] => None
-  | [43] => None
-  | [45] => None
-  | 43 :: r =>
-      match digits_val r 0 with
-      | Some n => if n <? two63 then Some (Z.of_N n) else None
-      | None => None
-      end
-  | 45 :: r =>
-      match digits_val r 0 with
-      | Some n => if n <=? two63 then Some (- Z.of_N n)%Z else None
-      | None => None
-      end
-  | _ =>
-      match digits_val s 0 with
-      | Some n => if n <? two63 then Some (Z.of_N n) else None
-      | None => None
-      end
+  | c :: r =>
+      if c =? 43 then
+        match digits_nonempty r with
+        | Some n => if n <? two63 then Some (Z.of_N n) else None
+        | None => None
+        end
+      else if c =? 45 then
+        match digits_nonempty r with
+        | Some n => if n <=? two63 then Some (- Z.of_N n)%Z else None
+        | None => None
+        end
+      else
+        match digits_val s 0 with
+        | Some n => if n <? two63 then Some (Z.of_N n) else None
+        | None => None
+        end
   end.
 
+(** for an unsigned type a leading '-' is not a sign: it fails as an invalid digit *)
 Definition parse_u64 (s : bytes) : option N :=
   match s with
   | [] => None
-  | [43] => None
-  | [45] => None
-  | 43 :: r =>
-      match digits_val r 0 with
-      | Some n => if n <? two64 then Some n else None
-      | None => None
-      end
-  | _ =>
-      match digits_val s 0 with
-      | Some n => if n <? two64 then Some n else None
-      | None => None
-      end
+  | c :: r =>
+      if c =? 43 then
+        match digits_nonempty r with
+        | Some n => if n <? two64 then Some n else None
+        | None => None
+        end
+      else
+        match digits_val s 0 with
+        | Some n => if n <? two64 then Some n else None
+        | None => None
+        end
   end.
 
 (** [ScalarValue]; [VStr s h]: [h] is what [s.parse::<f64>()] returns (bit pattern). *)
